@@ -256,6 +256,8 @@ func checkC03(p *Prog, r *Report) {
 		}
 	}
 	p.WithHelperParams(func() { c03GateArgs(p, ib, r) })
+	hasBindingRule(p, r, "R7")
+	approvalCleanupRule(p, r, "R8")
 	r.Rule("R6", "a binding is revoked exactly for the client it was made for: RemoveBinding keeps ⇔ ¬(client address ∧ server feature equal); RemoveBindingsForEntity keeps ⇔ ¬(client device ∧ client entity equal) — a disappearing writer loses its own bindings and nobody else's (retain truth tables, shared with C09-R2/C10-R1)")
 	applyRetain(p, r, "R6", "spine", "BindingManager", "RemoveBinding", retainSpec{Field: F("BindingManager.bindingEntries"),
 		Required: map[string]string{"client.address": "=ClientFeature.Address()", "server.feature": "=ServerFeature"}})
